@@ -112,8 +112,9 @@ Theorem C12_native_types_order_invariant :
 Proof. exact native_types_order_invariant. Qed.
 Print Assumptions C12_native_types_order_invariant.
 
-(* unguarded it is false: {bytes, object} keeps the set order (no dependence on the hash
-   seed has been observed for this on CPython: type hashes are addresses) *)
+(* unguarded it is false: {bytes, object} keeps the set order, and that order does vary from
+   run to run when a heap-allocated type is in the same set (type hashes are addresses):
+   known finding native-types-tie-order; no effect on generated files has been found *)
 Theorem C12_native_types_order_refuted :
   exists ord ord', NoDup ord /\ NoDup ord' /\ seteq ord ord' /\ sort_types ord <> sort_types ord'.
 Proof. exact native_types_order_refuted. Qed.
